@@ -22,6 +22,8 @@ type freeCase struct {
 	Cancel       bool               `json:"cancel"`
 	Seed         int64              `json:"seed"`
 	Repeat       int                `json:"repeat"`
+	FarDeadline  bool               `json:"farDeadline"`
+	CancelAtUs   int                `json:"cancelAtUs"`
 }
 
 // free -in cases.ndjson -out outcomes.ndjson: free-running runs (no gates, no hooks), several at the same time.
@@ -83,7 +85,8 @@ func freeMain(args []string) error {
 					tw.Emit(ev)
 					return
 				}
-				ev, err := lifecycle.RunFree(c.Scenario, lifecycle.FreeOpts{ForeignClose: c.ForeignClose, Cancel: c.Cancel, Seed: c.Seed*1000 + int64(k), PingAfter: k%2 == 0})
+				ev, err := lifecycle.RunFree(c.Scenario, lifecycle.FreeOpts{ForeignClose: c.ForeignClose, Cancel: c.Cancel, Seed: c.Seed*1000 + int64(k), PingAfter: k%2 == 0,
+					FarDeadline: c.FarDeadline, CancelAtUs: c.CancelAtUs})
 				if err != nil {
 					emu.Lock()
 					if firstErr == nil {
